@@ -109,6 +109,21 @@ func (r *Repo) hasContent() bool {
 
 func (m *Model) ev(s string) { m.Events[s]++ }
 
+// HasContent reports whether the named repository holds a blob, manifest or tag.
+func (m *Model) HasContent(name string) bool { return m.Repos[name].hasContent() }
+
+// SlotSize returns the number of bytes the upload session in slot w holds (-1 if the slot is empty).
+func (m *Model) SlotSize(w int) int {
+	sl, ok := m.slots[w]
+	if !ok {
+		return -1
+	}
+	if r := m.Repos[sl.repo]; r != nil && r.Uploads[sl.id] != nil {
+		return len(r.Uploads[sl.id].Buf)
+	}
+	return -1
+}
+
 func isOneOf(s string, set ...string) bool {
 	for _, x := range set {
 		if s == x {
